@@ -232,6 +232,46 @@ fn check_mut(pdb: &mut PDB, k: &mut Chk) {
     pass!("Model::atoms_with_hierarchy_mut", pdb.models_mut().for_each(|m| m.atoms_with_hierarchy_mut().for_each(|mut h| { let c = h.atom().charge(); h.atom_mut().set_charge(c + 1) })));
     pass!("Chain::atoms_with_hierarchy_mut", pdb.chains_mut().for_each(|m| m.atoms_with_hierarchy_mut().for_each(|mut h| { let c = h.atom().charge(); h.atom_mut().set_charge(c + 1) })));
     pass!("Residue::atoms_with_hierarchy_mut", pdb.residues_mut().for_each(|m| m.atoms_with_hierarchy_mut().for_each(|mut h| { let c = h.atom().charge(); h.atom_mut().set_charge(c + 1) })));
+    // the mutable tuples name the same ancestors as the immutable ones - walked forwards, backwards and from both ends
+    fn tf2(c: &Conformer) -> String { format!("{}:{}", c.name(), c.alternative_location().unwrap_or("-")) }
+    fn both_ends<T>(mut it: impl DoubleEndedIterator<Item = T>, f: impl Fn(&T) -> String) -> Vec<String> {
+        let (mut front, mut back) = (Vec::new(), Vec::new());
+        loop {
+            match it.next() { Some(x) => front.push(f(&x)), None => break }
+            match it.next_back() { Some(x) => back.push(f(&x)), None => break }
+        }
+        back.reverse();
+        front.extend(back);
+        front
+    }
+    {
+        let f5 = |h: &dyn ContainsAtomConformerResidueChainModel| format!("{}/{}/{}/{}/{}", ta(h.atom()), tf2(h.conformer()), tr(h.residue()), tc(h.chain()), tm(h.model()));
+        let want: Vec<String> = pdb.atoms_with_hierarchy().map(|h| f5(&h)).collect();
+        k.eq("PDB::atoms_with_hierarchy_mut tuples", pdb.atoms_with_hierarchy_mut().map(|h| f5(&h)).collect::<Vec<_>>(), want.clone());
+        k.eq("PDB::atoms_with_hierarchy_mut tuples rev", pdb.atoms_with_hierarchy_mut().rev().map(|h| f5(&h)).collect::<Vec<_>>(), want.iter().rev().cloned().collect::<Vec<_>>());
+        k.eq("PDB::atoms_with_hierarchy_mut tuples both ends", both_ends(pdb.atoms_with_hierarchy_mut(), |h| f5(h)), want.clone());
+    }
+    for m in pdb.models_mut() {
+        let f4 = |h: &dyn ContainsAtomConformerResidueChain| format!("{}/{}/{}/{}", ta(h.atom()), tf2(h.conformer()), tr(h.residue()), tc(h.chain()));
+        let want: Vec<String> = m.atoms_with_hierarchy().map(|h| f4(&h)).collect();
+        k.eq("Model::atoms_with_hierarchy_mut tuples", m.atoms_with_hierarchy_mut().map(|h| f4(&h)).collect::<Vec<_>>(), want.clone());
+        k.eq("Model::atoms_with_hierarchy_mut tuples rev", m.atoms_with_hierarchy_mut().rev().map(|h| f4(&h)).collect::<Vec<_>>(), want.iter().rev().cloned().collect::<Vec<_>>());
+        k.eq("Model::atoms_with_hierarchy_mut tuples both ends", both_ends(m.atoms_with_hierarchy_mut(), |h| f4(h)), want.clone());
+    }
+    for c in pdb.chains_mut() {
+        let f3 = |h: &dyn ContainsAtomConformerResidue| format!("{}/{}/{}", ta(h.atom()), tf2(h.conformer()), tr(h.residue()));
+        let want: Vec<String> = c.atoms_with_hierarchy().map(|h| f3(&h)).collect();
+        k.eq("Chain::atoms_with_hierarchy_mut tuples", c.atoms_with_hierarchy_mut().map(|h| f3(&h)).collect::<Vec<_>>(), want.clone());
+        k.eq("Chain::atoms_with_hierarchy_mut tuples rev", c.atoms_with_hierarchy_mut().rev().map(|h| f3(&h)).collect::<Vec<_>>(), want.iter().rev().cloned().collect::<Vec<_>>());
+        k.eq("Chain::atoms_with_hierarchy_mut tuples both ends", both_ends(c.atoms_with_hierarchy_mut(), |h| f3(h)), want.clone());
+    }
+    for x in pdb.residues_mut() {
+        let f2 = |h: &dyn ContainsAtomConformer| format!("{}/{}", ta(h.atom()), tf2(h.conformer()));
+        let want: Vec<String> = x.atoms_with_hierarchy().map(|h| f2(&h)).collect();
+        k.eq("Residue::atoms_with_hierarchy_mut tuples", x.atoms_with_hierarchy_mut().map(|h| f2(&h)).collect::<Vec<_>>(), want.clone());
+        k.eq("Residue::atoms_with_hierarchy_mut tuples rev", x.atoms_with_hierarchy_mut().rev().map(|h| f2(&h)).collect::<Vec<_>>(), want.iter().rev().cloned().collect::<Vec<_>>());
+        k.eq("Residue::atoms_with_hierarchy_mut tuples both ends", both_ends(x.atoms_with_hierarchy_mut(), |h| f2(h)), want.clone());
+    }
     pass!("Model::conformers_mut/residues_mut/chains_mut", pdb.models_mut().for_each(|m| {
         m.conformers_mut().for_each(|f| f.atoms_mut().for_each(|a| a.set_charge(a.charge() + 1)));
         m.residues_mut().for_each(|r| r.conformers_mut().for_each(|f| f.atoms_mut().for_each(|a| a.set_charge(a.charge() - 1))));
